@@ -100,7 +100,10 @@ def outcome_labels(spec, mp) -> tuple:
         for a in aliases:
             if M.is_self_or_desc(m, a) and (best is None or len(a) > len(best)):
                 best = a
-        out[key] = lab if best is None and lab == m and False else lab
+        if not isinstance(lab, str):
+            out[key] = ("not-a-string", repr(lab))  # compared like any other outcome: differs from a proper label
+            continue
+        out[key] = lab
         # normalise: express the label as (alias value or None, remainder tokens)
         if best is not None and lab.startswith(aliases[best]):
             rest = lab[len(aliases[best]):]
